@@ -23,7 +23,7 @@ def main(tier):
     t0 = time.time()
     results = wrun.run_all(specs)
     keep = ('no C assert', 'rejected (non-zero return) only if', 'a rejected call', 'a malformed call is never accepted', 'a zero-length call',
-            'return value is determined', 'next-sample cursor')
+            'return value is determined', 'next-sample cursor', 'representation invariant Inv_W')
     tot = wcommon.report(rep, specs, results, lambda nm: nm.startswith(keep), label='rejection')
     rep.extra['write_path'] = dict(configurations=len(specs), paths=tot['paths'], queries=tot['q'], solver_s=round(tot['s'], 1), wall_s=round(time.time() - t0, 1),
                                    per_config=[(r['name'], r['paths'], round(r['wall'], 1)) for r in results])
